@@ -273,6 +273,8 @@ def main():
                     recs.append({"id": j, "time": ["T"], "m": u["m"], "style": u["style"], "row": cells,
                                  "tags": [[k, ["~"] if v == NONE_TOK else v] for k, v in u["tags"]],
                                  "fields": [[k, ["~"] if v == NONE_TOK else v] for k, v in u["fields"]]})
+                if len(recs) > 24000:          # TLC re-reads the file once per worker: judge an evenly spread sample of the rows
+                    recs = recs[:: len(recs) // 24000 + 1]
                 path = os.path.join(scratch, "rows.json")
                 with open(path, "w") as fh:
                     json.dump(recs, fh)
